@@ -274,6 +274,7 @@ def _prompt_of(plat, mode=None, hostname="r1"):
     return d.prompt(mode or d.mode).decode().split("\n")[-1]
 
 
+CB_NAMED = [0.5]         # probability that a read_callback uses the scenario's named (persistent) callbacks list
 PER_CALL = [0.12]        # probability of a per-call timeout_ops on operations that accept one (raised by the command / config families)
 
 # scenario families: which operations / device behaviours reach which twin function (used to aim the directed search)
@@ -423,6 +424,8 @@ def _gen_op(rng, plat, hostname, name):
             kw["timeout_ops"] = rng.choice([500, 7])
         return ["send_and_read", cmd, kw]
     # read_callback
+    if rng.random() < CB_NAMED[0]:
+        return ["read_callback", "A", {"initial_input": rng.choice(["show version", "show clock", "show clock", None])}]      # the scenario's named list
     cbs = [{"contains_re": r"[#>%]\s*$", "send": "show clock", "name": "c1", "only_once": True} if final.startswith("^") else
            {"contains": final, "send": "show clock", "name": "c1", "only_once": True},
            {"contains": "UTC", "complete": True, "name": "c2"}]
@@ -433,7 +436,30 @@ def _gen_op(rng, plat, hostname, name):
     return ["read_callback", cbs, {"initial_input": rng.choice(["show version", "show clock"])}]
 
 
+def gen_cbset(rng):
+    """a callbacks list for read_callback: trigger kinds (contains / contains_re / not_contains, case sensitivity), flags (only_once,
+    reset_output, complete), actions (send a line / nothing), callbacks that RAISE on their 1st / 2nd run, plain functions on asyncio"""
+    trig = [{"contains_re": r"[#>%]\s*$"}, {"contains": "#"}, {"contains": "UTC"}, {"contains": "utc", "case_insensitive": False},
+            {"contains": "UTC", "case_insensitive": False}, {"contains_re": r"uptime is \d+"}, {"contains": "Software", "not_contains": "UTC"},
+            {"contains_re": r"^\*\d\d:", "multiline": rng.random() < 0.5}, {"contains": "never printed"}]
+    out = []
+    for i in range(rng.choice([1, 2, 2, 3])):
+        c = dict(rng.choice(trig), name=f"c{i + 1}")
+        c["only_once"] = rng.random() < 0.5
+        c["reset_output"] = rng.random() < 0.7
+        c["complete"] = rng.random() < (0.25 if i == 0 else 0.5)
+        c["send"] = rng.choice(["show clock", "show version", "", None, None])
+        if rng.random() < 0.35:
+            c["raise_on"] = rng.choice([[1], [1], [2], [1, 2]])
+            c["raise_exc"] = rng.choice(["ValueError", "ScrapliTimeout", "OSError"])
+        if rng.random() < 0.25:
+            c["coro"] = False
+        out.append(c)
+    return out
+
+
 def gen_scenario(rng, plat=None, family=None):
+    CB_NAMED[0] = 0.8 if family == "callback" else 0.5
     PER_CALL[0] = 0.5 if family in ("command", "config", "interactive") else 0.12
     if family == "priv" and plat is None:
         plat = rng.choice(["network", "cisco_iosxe", "cisco_nxos", "arista_eos", "cisco_iosxe", "juniper_junos", "cisco_iosxr"])
@@ -528,6 +554,12 @@ def gen_scenario(rng, plat=None, family=None):
         ops.append(["exit"] if ops[0] == ["enter"] or rng.random() < 0.1 else ["close"])
         if rng.random() < 0.1:
             ops.append(rng.choice([["close"], ["get_prompt"], ["open"]]))
+    if any(o[0] == "read_callback" and isinstance(o[1], str) for o in ops):
+        scn["cbsets"] = {"A": gen_cbset(rng)}
+        # history: the SAME callbacks list used again on the same connection (after whatever the first call ended with)
+        i = max(k for k, o in enumerate(ops) if o[0] == "read_callback" and isinstance(o[1], str))
+        for _ in range(rng.choice([0, 1, 1, 2])):
+            ops.insert(i + 1, ["read_callback", "A", {"initial_input": rng.choice(["show clock", "show version", None])}])
     scn["ops"] = ops
     return scn
 
@@ -560,6 +592,18 @@ def enumerated_scenarios():
                         dev["enable_password"] = devpw
                     out.append({"platform": plat, "dev": dev, "conn": {"auth_secondary": sec}, "cuts": cuts,
                                 "ops": [["open"], ["send_command", "show clock", {}], ["acquire_priv", "configuration"], ["close"]]})
+        # read_callback histories: one callbacks list used on two calls; the first callback raises on its 1st / 2nd / no run, only_once on/off,
+        # coroutine / plain function on asyncio, output reset on/off
+        if plat in ("generic", "cisco_iosxe", "juniper_junos"):
+            for raise_on in ([], [1], [2]):
+                for once in (True, False):
+                    for coro in (True, False):
+                        for reset in (True, False):
+                            cbs = [{"contains_re": r"[#>%]\s*$", "name": "c1", "only_once": once, "reset_output": reset, "send": "show clock", "raise_on": raise_on, "coro": coro},
+                                   {"contains": "UTC", "name": "c2", "complete": True, "coro": coro}]
+                            out.append({"platform": plat, "dev": {"platform": DEVPLAT.get(plat, plat)}, "conn": {}, "cuts": "whole", "cbsets": {"A": cbs},
+                                        "ops": [["open"], ["read_callback", "A", {"initial_input": "show version"}], ["read_callback", "A", {"initial_input": "show version"}],
+                                                ["read_callback", "A", {}], ["close"]]})
         # per-call timeout_ops on a batch: it must be in effect for every command, the last one included
         batch = [["send_commands", ["show clock", "show version", "show clock"], {"timeout_ops": 500}],
                  ["send_commands_from_file", ["show clock", "show version"], {"timeout_ops": 7}]]
